@@ -6,13 +6,16 @@ class Z:
     """A z3 term of sort Py / PyList / Bool / Int / String, plus provenance used by the frame
     layer: fresh in {'no','shallow','deep'} says whether the OBJECT denoted was allocated during
     the call being verified; origin is a human-readable provenance string."""
-    __slots__ = ("t", "fresh", "origin", "known_cls")
+    __slots__ = ("t", "fresh", "origin", "known_cls", "fresh_fields")
 
-    def __init__(self, t, fresh="no", origin=None, known_cls=None):
+    def __init__(self, t, fresh="no", origin=None, known_cls=None, fresh_fields=None):
+        # fresh: 'no' | 'node' (object fresh, its child lists shared) | 'shallow' (object and its
+        # child lists fresh) | 'deep'
         self.t = t
         self.fresh = fresh
         self.origin = origin
         self.known_cls = known_cls
+        self.fresh_fields = fresh_fields or ()
 
     def sort(self):
         return self.t.sort()
